@@ -388,6 +388,26 @@ fn panic_key(msg: &str) -> String {
     m.chars().take(60).collect()
 }
 
+#[derive(serde::Serialize, serde::Deserialize)]
+struct WireViolation {
+    class: String,
+    key: Value,
+    what: String,
+    replay: Value,
+}
+
+#[derive(serde::Serialize, serde::Deserialize)]
+struct WireResult {
+    idx: usize,
+    violations: Vec<WireViolation>,
+    runs: u64,
+    fingerprints: Vec<String>,
+    fired: BTreeMap<String, u64>,
+    probes: BTreeMap<String, u64>,
+    sample: Option<Value>,
+    digest: String,
+}
+
 struct CaseResult {
     violations: Vec<Violation>,
     runs: u64,
@@ -620,14 +640,15 @@ pub fn run(opts: &Opts) -> i32 {
         "allocation failure and stack exhaustion are not injected".into(),
     ];
     ev.exhaustive = Some(false);
-    let results = harness::parallel_with(
-        all.len(),
-        opts.workers,
-        |w| Sandbox::new(&format!("c04w{w}")).expect("sandbox"),
-        |sb, i| check_case(sb, opts, i, &all[i], per_op, enumerate),
-    );
+    let _ = (per_op, enumerate);
+    // Every worker is a separate OS process under an address-space limit, announcing each
+    // operation in a marker file before running it: a compiler that aborts, overflows its stack,
+    // exhausts memory or never returns kills (or stalls) only that child, and the parent knows
+    // which operation under which faults did it.
+    let (results, process_faults) = run_children(opts, &all);
     harness::print_run_digest(&results.iter().map(|r| r.digest.clone()).collect::<Vec<_>>());
     let mut violations = Vec::new();
+    violations.extend(process_faults);
     for r in results {
         ev.evaluations += r.runs;
         ev.distinct.extend(r.fingerprints);
@@ -680,9 +701,258 @@ pub fn replay(file: &Value) -> bool {
     if class == "no-recovery-after-faults" {
         return false;
     }
+    if r["kind"] == "c04-process" {
+        // run the operation in a grandchild and see whether it survives
+        let tmp = format!("/dev/shm/gv-c04-exec-{}.json", std::process::id());
+        std::fs::write(&tmp, serde_json::to_vec(file).unwrap()).unwrap();
+        let mut child = std::process::Command::new(std::env::current_exe().unwrap()).args(["c04-exec", &tmp]).stdout(std::process::Stdio::null()).stderr(std::process::Stdio::null()).spawn().unwrap();
+        let start = std::time::Instant::now();
+        let verdict = loop {
+            match child.try_wait() {
+                Ok(Some(st)) => break !st.success(),
+                Ok(None) => {
+                    if start.elapsed() > HANG_LIMIT {
+                        let _ = child.kill();
+                        let _ = child.wait();
+                        break true;
+                    }
+                    std::thread::sleep(std::time::Duration::from_millis(50));
+                }
+                Err(_) => break false,
+            }
+        };
+        let _ = std::fs::remove_file(&tmp);
+        println!("replayed: the operation {} in a fresh process", if verdict { "did not survive" } else { "survived" });
+        return verdict;
+    }
     let obs = execute(&sb, &base, &op, &plan);
     for (c, d) in &obs.problems {
         println!("replayed: {c}: {}", d.chars().take(300).collect::<String>());
     }
     obs.problems.iter().any(|(c, _)| c == class)
+}
+
+
+const HANG_LIMIT: std::time::Duration = std::time::Duration::from_secs(150);
+const CHILD_MEMORY_LIMIT: u64 = 12 << 30;
+
+fn out_base(k: usize) -> String {
+    format!("/dev/shm/gv-c04-{:07}-{:02}", std::process::id() % 10_000_000, k)
+}
+
+/// Child mode: handle the cases i with i % n == k and i > resume_after, one after another.
+pub fn child(opts: &Opts, k: usize, n: usize, resume_after: i64, base: &str) -> i32 {
+    unsafe {
+        let lim = libc::rlimit { rlim_cur: CHILD_MEMORY_LIMIT, rlim_max: CHILD_MEMORY_LIMIT };
+        libc::setrlimit(libc::RLIMIT_AS, &lim);
+    }
+    let all = cases(opts);
+    let enumerate = opts.tier == Tier::Thorough;
+    let per_op = if opts.tier == Tier::Quick { 8 } else { 12 };
+    let sb = match Sandbox::new(&format!("c04c{k}")) {
+        Ok(s) => s,
+        Err(e) => {
+            eprintln!("HARNESS ERROR: {e}");
+            return 2;
+        }
+    };
+    use std::io::Write;
+    let mut out = match std::fs::OpenOptions::new().create(true).append(true).open(format!("{base}.result")) {
+        Ok(f) => f,
+        Err(e) => {
+            eprintln!("HARNESS ERROR: cannot open result file: {e}");
+            return 2;
+        }
+    };
+    for (i, case) in all.iter().enumerate() {
+        if i % n != k || (i as i64) <= resume_after {
+            continue;
+        }
+        let _ = std::fs::write(format!("{base}.world"), serde_json::to_vec(&json!({"idx": i, "case": case.name, "files": files_json(&case.files)})).unwrap());
+        MARKER.with(|m| *m.borrow_mut() = Some((format!("{base}.marker"), case.name.clone())));
+        let _ = std::fs::write(format!("{base}.marker"), serde_json::to_vec(&json!({"case": case.name, "op": null, "plan": null})).unwrap());
+        let r = check_case(&sb, opts, i, case, per_op, enumerate);
+        let wire = WireResult {
+            idx: i,
+            violations: r.violations.into_iter().map(|v| WireViolation { class: v.class, key: v.key, what: v.what, replay: v.replay }).collect(),
+            runs: r.runs,
+            fingerprints: r.fingerprints,
+            fired: r.fired,
+            probes: r.probes.into_iter().map(|(k, v)| (k.to_string(), v)).collect(),
+            sample: r.sample,
+            digest: r.digest,
+        };
+        let _ = writeln!(out, "{}", serde_json::to_string(&wire).unwrap());
+        let _ = out.flush();
+    }
+    0
+}
+
+fn spawn_child(opts: &Opts, k: usize, n: usize, resume_after: i64, base: &str) -> std::io::Result<std::process::Child> {
+    std::process::Command::new(std::env::current_exe()?)
+        .args(["c04-child", &k.to_string(), &n.to_string(), &resume_after.to_string(), base])
+        .env("VERIF_SEED", opts.seed.to_string())
+        .env("VERIF_TIER", opts.tier.name())
+        .env("VERIF_SCALE", opts.scale.to_string())
+        .env("VERIF_WORKERS", "1")
+        .env("VERIF_DRY", "1")
+        .stdout(std::process::Stdio::null())
+        .stderr(std::process::Stdio::null())
+        .spawn()
+}
+
+fn run_children(opts: &Opts, all: &[Case]) -> (Vec<CaseResult>, Vec<Violation>) {
+    let n = opts.workers.max(1).min(all.len().max(1));
+    let mut kids: Vec<Option<std::process::Child>> = Vec::new();
+    let mut process_faults: Vec<Violation> = Vec::new();
+    for k in 0..n {
+        let base = out_base(k);
+        for ext in ["result", "marker", "world"] {
+            let _ = std::fs::remove_file(format!("{base}.{ext}"));
+        }
+        match spawn_child(opts, k, n, -1, &base) {
+            Ok(c) => kids.push(Some(c)),
+            Err(e) => {
+                eprintln!("HARNESS ERROR: cannot spawn C04 worker: {e}");
+                std::process::exit(2);
+            }
+        }
+    }
+    let mut restarts = 0usize;
+    loop {
+        let mut alive = 0;
+        for k in 0..n {
+            let base = out_base(k);
+            let Some(child) = kids[k].as_mut() else { continue };
+            let status = child.try_wait().ok().flatten();
+            let mut died: Option<String> = None;
+            match status {
+                Some(st) if st.success() => {
+                    kids[k] = None;
+                    continue;
+                }
+                Some(st) => {
+                    use std::os::unix::process::ExitStatusExt;
+                    died = Some(match st.signal() {
+                        Some(11) => "crash: SIGSEGV (stack overflow or invalid memory access)".to_string(),
+                        Some(6) => "abort: SIGABRT (allocation failure, stack overflow guard or explicit abort)".to_string(),
+                        Some(sig) => format!("killed by signal {sig}"),
+                        None => format!("exit status {:?}", st.code()),
+                    });
+                }
+                None => {
+                    alive += 1;
+                    // hang detection: the marker has not moved for a long time
+                    if let Ok(md) = std::fs::metadata(format!("{base}.marker")) {
+                        if let Ok(age) = md.modified().map(|t| t.elapsed().unwrap_or_default()) {
+                            if age > HANG_LIMIT {
+                                let _ = child.kill();
+                                let _ = child.wait();
+                                died = Some(format!("hang: no progress for {} s", HANG_LIMIT.as_secs()));
+                                alive -= 1;
+                            }
+                        }
+                    }
+                }
+            }
+            if let Some(how) = died {
+                let marker: Value = std::fs::read(format!("{base}.marker")).ok().and_then(|b| serde_json::from_slice(&b).ok()).unwrap_or(Value::Null);
+                let world: Value = std::fs::read(format!("{base}.world")).ok().and_then(|b| serde_json::from_slice(&b).ok()).unwrap_or(Value::Null);
+                let idx = world["idx"].as_i64().unwrap_or(-1);
+                let class = if how.starts_with("hang") { "hang" } else { "abort" };
+                let entry = marker["op"]["entry"].as_str().unwrap_or("?").to_string();
+                if marker["op"].is_null() {
+                    // died while preparing the world (fault-free build of the artifact set)
+                    process_faults.push(Violation {
+                        property: PROP.into(),
+                        class: class.to_string(),
+                        key: json!({"class": class, "entry": "prepare"}),
+                        what: format!("C04: the compiler process died ({how}) while building project {} without any fault injected", world["case"]),
+                        replay: json!({"kind": "c04-process", "world_sources": world["files"], "op": null, "plan": null, "class": class, "how": how}),
+                    });
+                } else {
+                    process_faults.push(Violation {
+                        property: PROP.into(),
+                        class: class.to_string(),
+                        key: json!({"class": class, "entry": entry}),
+                        what: format!("C04: `goml {}` on project {}: the process did not survive ({how})", entry, world["case"]),
+                        replay: json!({"kind": "c04-process", "world_sources": world["files"], "op": marker["op"], "plan": marker["plan"], "class": class, "how": how, "case_index": idx}),
+                    });
+                }
+                restarts += 1;
+                if restarts > 40 {
+                    eprintln!("HARNESS ERROR: too many C04 worker deaths");
+                    std::process::exit(2);
+                }
+                match spawn_child(opts, k, n, idx, &base) {
+                    Ok(c) => {
+                        kids[k] = Some(c);
+                        alive += 1;
+                    }
+                    Err(_) => kids[k] = None,
+                }
+            }
+        }
+        if alive == 0 && kids.iter().all(|k| k.is_none()) {
+            break;
+        }
+        std::thread::sleep(std::time::Duration::from_millis(40));
+    }
+    // collect
+    let mut by_idx: BTreeMap<usize, CaseResult> = BTreeMap::new();
+    for k in 0..n {
+        let base = out_base(k);
+        if let Ok(text) = std::fs::read_to_string(format!("{base}.result")) {
+            for line in text.lines() {
+                if let Ok(w) = serde_json::from_str::<WireResult>(line) {
+                    by_idx.insert(
+                        w.idx,
+                        CaseResult {
+                            violations: w.violations.into_iter().map(|v| Violation { property: PROP.into(), class: v.class, key: v.key, what: v.what, replay: v.replay }).collect(),
+                            runs: w.runs,
+                            fingerprints: w.fingerprints,
+                            fired: w.fired,
+                            probes: w.probes.into_iter().map(|(k, v)| (leak(k), v)).collect(),
+                            sample: w.sample,
+                            digest: w.digest,
+                        },
+                    );
+                }
+            }
+        }
+        for ext in ["result", "marker", "world"] {
+            let _ = std::fs::remove_file(format!("{base}.{ext}"));
+        }
+    }
+    let _ = all;
+    (by_idx.into_values().collect(), process_faults)
+}
+
+fn leak(s: String) -> &'static str {
+    Box::leak(s.into_boxed_str())
+}
+
+/// Re-run one (world, op, plan) in this process — used by `sim c04-exec` (a grandchild under an
+/// address-space limit) when replaying an abort / hang.
+pub fn exec_one(file: &Value) -> i32 {
+    unsafe {
+        let lim = libc::rlimit { rlim_cur: CHILD_MEMORY_LIMIT, rlim_max: CHILD_MEMORY_LIMIT };
+        libc::setrlimit(libc::RLIMIT_AS, &lim);
+    }
+    let r = &file["replay"];
+    let sources = files_from_json(&r["world_sources"]);
+    let sb = Sandbox::new("c04exec").expect("sandbox");
+    let case = Case { name: "replay".into(), files: sources };
+    let (base, _, _, _) = prepare(&sb, &case);
+    let op: OpSpec = match serde_json::from_value(r["op"].clone()) {
+        Ok(o) => o,
+        Err(_) => return 0,
+    };
+    let plan: FaultPlan = match serde_json::from_value(r["plan"].clone()) {
+        Ok(o) => o,
+        Err(_) => return 0,
+    };
+    let obs = execute(&sb, &base, &op, &plan);
+    println!("survived: {:?}", obs.exit.class());
+    0
 }
